@@ -32,7 +32,7 @@ func init() {
 		Real:       append([]string{"two to four independent app.App instances per run, restart over the surviving disk (app.New on the same DB)", "child process replica"}, distReal...),
 		Stub:       distStub,
 		Assumes:    []string{"Go's map iteration order cannot be seeded: a divergence caused by it may need several executions to show; the replay command re-executes the comparison up to 20 times", "transaction log strings are compared as information only (ABCI declares them non-deterministic)"},
-		FaultKinds: []string{"F-replica", "F-crash before Commit", "F-crash inside Commit at the k-th batch write", "F-order", "F-gov", "F-upgrade (every sixth run: two replicas execute the v1.2.0 upgrade handler over the same rewritten pre-upgrade store, one of them dying and recovering in the preparing or the upgrading block; app hashes compared after every block)"},
+		FaultKinds: []string{"F-replica", "F-replica: a node with other operator settings (--x-crisis-skip-assert-invariants, --inv-check-period 1)", "F-crash before Commit", "F-crash inside Commit at the k-th batch write", "F-order", "F-gov", "F-upgrade (every sixth run: two replicas execute the v1.2.0 upgrade handler over the same rewritten pre-upgrade store, one of them dying and recovering in the preparing or the upgrading block; app hashes compared after every block)"},
 	})
 }
 
@@ -134,14 +134,19 @@ func c11Exec(tr *kernel.Trace, src kernel.Source, withChild bool) *Outcome {
 	}
 	runB, piB := newReplica(tr.Spec)
 	runD, piD := newReplica(tr.Spec)
-	if piB != nil || piD != nil {
+	// replica E: a node whose operator chose other node-local settings (genesis invariant assertion skipped,
+	// invariants asserted after every block instead of never)
+	specE := tr.Spec
+	runE := &kernel.Run{Spec: &specE, KeepLog: true, NodeOpts: kernel.NodeOpts{SkipGenesisInvariants: true, InvCheckPeriod: 1}}
+	piE := runE.Start()
+	if piB != nil || piD != nil || piE != nil {
 		o.InfraErr = fmt.Errorf("replica genesis failed")
 		return o
 	}
 	violate := func(sig, format string, args ...interface{}) {
 		o.Violations = append(o.Violations, &kernel.Violation{Property: "C11", Check: "replicas", Signature: sig, Message: fmt.Sprintf(format, args...), Block: runA.BlockIdx, TxIndex: -1})
 	}
-	markA, markB, markD := 0, 0, 0
+	markA, markB, markD, markE := 0, 0, 0, 0
 	i := 0
 	for {
 		var b *kernel.Block
@@ -172,11 +177,14 @@ func c11Exec(tr *kernel.Trace, src kernel.Source, withChild bool) *Outcome {
 		runB.BlockIdx++
 		runD.ExecBlock(&rec, nil) // with the crash point
 		runD.BlockIdx++
-		o.Evals += 2
+		runE.ExecBlock(&plain, nil)
+		runE.BlockIdx++
+		o.Evals += 3
 		la := runA.Log[markA:]
 		lb := runB.Log[markB:]
 		ld := filterRecommit(runD.Log[markD:])
-		markA, markB, markD = len(runA.Log), len(runB.Log), len(runD.Log)
+		le := runE.Log[markE:]
+		markA, markB, markD, markE = len(runA.Log), len(runB.Log), len(runD.Log), len(runE.Log)
 		if d := firstLogDiff(la, lb); d != "" {
 			violate("replica-divergence:silent-vs-observed", "height %d: observed replica A and silent replica B disagree: %s", runA.Chain.Height, d)
 			break
@@ -191,6 +199,10 @@ func c11Exec(tr *kernel.Trace, src kernel.Source, withChild bool) *Outcome {
 		}
 		if len(runD.Violations) > 0 {
 			o.Violations = append(o.Violations, runD.Violations...)
+			break
+		}
+		if d := firstLogDiff(la, le); d != "" {
+			violate("replica-divergence:node-local-settings", "height %d: replica E (genesis invariant assertion skipped, invariants asserted every block) disagrees with replica A (assertion at genesis only): %s%s", runA.Chain.Height, d, storeDiffSummary(runA.Chain, runE.Chain))
 			break
 		}
 		i++
@@ -397,4 +409,33 @@ func c11UpgradeExec(tr *kernel.Trace) *Outcome {
 	o.Fingerprint = fingerprint("upgrade", statsClasses(&o.Stats, "probe.", "fault."), len(o.Violations) > 0)
 	o.Sample = map[string]interface{}{"seed": tr.Seed, "sub_profile": "upgrade", "blocks_compared": n}
 	return o
+}
+
+// storeDiffSummary names the stores (and the first key in each) in which two nodes differ.
+func storeDiffSummary(a, b *kernel.Chain) string {
+	out := ""
+	for _, name := range []string{"acc", "bank", "staking", "distribution", "slashing", "gov", "mint", "params", "upgrade", "feegrant", "authz", "capability",
+		"cfeminter", "cfedistributor", "cfevesting", "cfesignature"} {
+		da, db := a.StoreDump(name), b.StoreDump(name)
+		keys := map[string]bool{}
+		for k := range da {
+			keys[k] = true
+		}
+		for k := range db {
+			keys[k] = true
+		}
+		n, first := 0, ""
+		for _, k := range kernel.SortedKeys(keys) {
+			if string(da[k]) != string(db[k]) {
+				if n == 0 {
+					first = fmt.Sprintf("%x", k)
+				}
+				n++
+			}
+		}
+		if n > 0 {
+			out += fmt.Sprintf("; store %s: %d keys differ (first %s)", name, n, clip(first, 60))
+		}
+	}
+	return out
 }
